@@ -231,7 +231,7 @@ func c15Oracle(r *ev.Rec) func(c15Case) ev.Verdict {
 				ok = ok || got.rc == a
 			}
 			if !ok {
-				key := fmt.Sprintf("check:%s:want%d:got%d", what, allowed[0], got.rc)
+				key := fmt.Sprintf("check:want%d:got%d", allowed[0], got.rc)
 				if d15Predict(usim, k, opc, rnd, autn, sqnUE) == got.rc {
 					key = "D15:os_memcmp-returns-index"
 				}
